@@ -69,6 +69,26 @@ let () =
              go 0 [] ops steps
            with _ -> "oracle=unparsable")) in
       Printf.printf "%s| %s\n" (Buffer.contents buf) verdict
+    | "req" :: m :: toks ->
+      let rec pairs = function a :: b :: t -> (bytes_of_tok a, bytes_of_tok b) :: pairs t | _ -> [] in
+      let hs = pairs toks in
+      let meth = bytes_of_tok m in
+      let model = (match request_of_head meth hs with
+          | QOk r -> "ok " ^ pr_state r.rq_headers
+          | QErr InvalidContentLength -> "err InvalidContentLength"
+          | QErr UnsupportedTransferEncoding -> "err UnsupportedTransferEncoding"
+          | QErr MalformedCookieHeader -> "err MalformedCookieHeader") in
+      (* oracle (boolean form of c14_handler_sees_sent_minus_consumed), on the implementation's own answer:
+         an accepted request exposes exactly the sent list minus the consumed fields, in order, all ASCII *)
+      let verdict = (match split_ws impl_line with
+          | "panic" :: _ -> "oracle=fail@panic"
+          | "ok" :: st ->
+            (try let (hs_i, _) = parse_state st in
+               if oracle_c14_req hs hs_i then "oracle=ok" else "oracle=fail@exposed-headers"
+             with _ -> "oracle=unparsable")
+          | "err" :: _ -> (match request_of_head meth hs with QOk _ -> "oracle=fail@rejected" | QErr _ -> "oracle=ok")
+          | _ -> "oracle=unparsable") in
+      Printf.printf "%s | %s\n" model verdict
     | "ascii" :: _ctor :: u :: _ ->
       let chars = scalars_of_tok u in
       let m = (match ascii_try_from chars with None -> "E" | Some s -> "K " ^ tok_of_bytes s) in
